@@ -55,6 +55,11 @@ def enumerate_cases(tier, scope):
                 for is_async in (False, True):
                     prog = {'steps': [gen.S([], first, is_async), gen.S([['yield']] if is_async else [], last, is_async)]}
                     yield {'program': prog, 'resumes': [res]}
+                    if res in (NOVALUE, 'v', None):
+                        yield {'program': prog, 'resumes': [res], 'own_loop': True}
+                    if res in (NOVALUE, 'v') and last[0] in ('value', 'raise'):
+                        yield {'program': dict(prog, initial=[[3, 'a'], {'scale': 2, 'label': None}]), 'resumes': [res]}
+                        yield {'program': dict(prog, initial=[[], {'k': [1]}]), 'resumes': [res]}
                     if res in (NOVALUE, 'v'):
                         yield {'program': dict(prog, command_subclasses=True), 'resumes': [res]}
                     if first[0] == 'wait' and res in ('v', None):
@@ -94,6 +99,10 @@ def _cases(draw, tier):
     if nwaits and draw(st.integers(0, 3)) == 0:
         # an application-defined WAITING state that resumes itself while it is being entered
         case['enter_resumes'] = {str(i): draw(st.sampled_from(['early', None, 0, {'__tuple__': [1]}])) for i in range(nwaits) if draw(st.booleans())}
+    if draw(st.integers(0, 3)) == 0:
+        case['own_loop'] = True
+    if draw(st.integers(0, 4)) == 0:
+        case['program']['initial'] = [draw(st.lists(st.sampled_from([0, 1, 'a', None]), max_size=2)), draw(st.dictionaries(st.sampled_from(['p', 'q', 'scale']), st.sampled_from([0, 2, 'x', None]), max_size=2))]
     return case
 
 
@@ -104,6 +113,8 @@ def strategy(tier):
 def model(program, resumes, enter_resumes=None):
     enter_resumes = enter_resumes or {}
     idx, args, kwargs = 0, [], {}
+    if program.get('initial') is not None:
+        args, kwargs = program['initial']  # the first step is started with these (create_initial_state override)
     calls = []
     nwait = 0
     for _ in range(64):
@@ -192,7 +203,9 @@ def execute(case):
     exp_calls, exp_outcome = model(program, resumes, enter_resumes)
     if enter_resumes:
         program = dict(program, eager_waiting=True)
-    run_case = {'program': program, 'schedule': []}
+    # own_loop: the process has a loop of its own (not the thread's default loop) and is constructed, loaded from its
+    # checkpoints and woken up by synchronous code while no loop is running
+    run_case = {'program': program, 'schedule': [], 'decoy_loop': bool(case.get('own_loop'))}
 
     def plan_enter_resumes(ex):
         ex.world.extra['resume_on_enter'] = {ex.proc.pid: {int(k): val for k, val in enter_resumes.items()}}
